@@ -441,3 +441,76 @@ def zone_text(z, case="upper"):
 def time_text(w, z, sp, zcase="upper"):
     t = dict(time_spellings(w))[sp]
     return t if not z["name"] else t + " " + zone_text(z, zcase)
+
+
+# ---------------------------------------------------------------------------------------------
+# dates (C09)
+# ---------------------------------------------------------------------------------------------
+def month_names(lang):
+    """month number -> {'long': [...], 'short': [...]} every configured name"""
+    ld = config_json()["languages"][lang]
+    out = {m: {"long": [], "short": []} for m in range(1, 13)}
+    for n, m in ld.get("long_months", {}).items():
+        out[m]["long"].append(n)
+    for n, m in ld.get("short_months", {}).items():
+        out[m]["short"].append(n)
+    return out
+
+
+def day_words(lang):
+    cp = config_json()["languages"][lang].get("constant_pair", {})
+    out = {}
+    for w, c in cp.items():
+        if c in (8, 9, 10):
+            out.setdefault({8: 0, 9: 1, 10: -1}[c], []).append(w)
+    return out
+
+
+DATE_SPELLINGS = {"en": ["dmy", "d_mon_y", "mon_d_c_y", "mon_d_y"], "tr": ["dmy", "d_mon_y"]}
+
+
+def word_case(w, case):
+    """letter-case variant of a keyword; only where simple case mapping round-trips (not for dotless i etc.)"""
+    if case == "upper" and w.upper().lower() == w and len(w.upper()) == len(w):
+        return w.upper()
+    if case == "title" and w[:1].upper().lower() == w[:1] and len(w[:1].upper()) == 1:
+        return w[:1].upper() + w[1:]
+    return w
+
+
+def date_texts(a, lang, all_names=False, salt=0):
+    """every spelling of date operand a = {'y','m','d'} (y = 0: no year) or {'rel': k}: [(variant, text)]"""
+    if "rel" in a:
+        ws = day_words(lang).get(a["rel"], [])
+        return [("rel%d" % i, w) for i, w in enumerate(ws)]
+    if a["m"] not in range(1, 13):
+        return [("dmy", "%d/%d/%d" % (a["d"], a["m"], a["y"]))] if a["y"] else []
+    names = month_names(lang)[a["m"]]
+    cand = [("long", n) for n in names["long"]] + [("short", n) for n in names["short"]]
+    if not all_names:
+        cand = [cand[salt % len(cand)], cand[(salt // 3 + 1) % len(cand)]] if len(cand) > 1 else cand
+    out = []
+    seen = set()
+    if a["y"] == 0:
+        for i, (kind, n) in enumerate(cand):
+            t = "%d %s" % (a["d"], word_case(n, ["lower", "title", "upper"][(salt + i) % 3]))
+            if t not in seen:
+                seen.add(t)
+                out.append(("d_mon.%s%d" % (kind, i), t))
+        return out
+    out.append(("dmy", "%d/%d/%d" % (a["d"], a["m"], a["y"])))
+    for i, (kind, n) in enumerate(cand):
+        w = word_case(n, ["lower", "title", "upper"][(salt + i) % 3])
+        for sp in DATE_SPELLINGS.get(lang, ["dmy", "d_mon_y"]):
+            if sp == "d_mon_y":
+                t = "%d %s %d" % (a["d"], w, a["y"])
+            elif sp == "mon_d_c_y":
+                t = "%s %d, %d" % (w, a["d"], a["y"])
+            elif sp == "mon_d_y":
+                t = "%s %d %d" % (w, a["d"], a["y"])
+            else:
+                continue
+            if t not in seen:
+                seen.add(t)
+                out.append(("%s.%s%d" % (sp, kind, i), t))
+    return out
